@@ -140,9 +140,13 @@ for case in payload['cases']:
             combined = {'lmf_version': '1.3', 'lexicons': [r['lexicons'][0] for _n, r in case['multi']]}
             pc = os.path.join(work, 'combined.xml')
             open(pc, 'w', encoding='utf-8').write(lmfgen.to_xml(combined))
+            full = None
             with iutil.FreshDB():
-                wn.add(pc, progress_handler=None)
-                full = state()
+                try:
+                    wn.add(pc, progress_handler=None)
+                    full = state()
+                except Exception as e:
+                    rec['errors']['combined'] = '%s: %s' % (iutil.errname(e), str(e)[:200])
             for pre in range(len(case['multi'])):
                 with iutil.FreshDB():
                     try:
@@ -154,7 +158,8 @@ for case in payload['cases']:
                         rec['routes']['combined_with_%d_preinstalled' % pre] = state()
                     except Exception as e:
                         rec['errors']['combined_pre_%d' % pre] = '%s: %s' % (iutil.errname(e), str(e)[:200])
-            rec['routes']['combined'] = full
+            if full is not None:
+                rec['routes']['combined'] = full
             # a collection (directory / tar.gz) of which one package is already installed: the others are still stored
             if 'collection' in routes:
                 for pre in range(len(case['multi'])):
